@@ -3,7 +3,7 @@
 # copies patch + demonstration to /verif/seeded/<name>/, then confirms, in that scratch worktree,
 # that (1) the existing suite passes with the change, (2) the demonstration fails with it,
 # (3) the demonstration passes without it. usage: tools/ingest_seed.sh <WT> <name> <property>
-WT=/tmp/seed/$1; NAME=$2; PROP=$3
+WT=${SEEDDIR:-/tmp/seed}/$1; NAME=$2; PROP=$3
 HERE="$(cd "$(dirname "$0")/.." && pwd)"; D="$HERE/seeded/$NAME"; mkdir -p "$D"
 cd "$WT" || exit 2
 git diff -- src > "$D/patch.diff"
